@@ -104,7 +104,7 @@ func c07b(c *Ctx) {
 			continue
 		}
 		pArg := argByName(info, seqCalls[0].Call, "p")
-		pObj := objOf(info, pArg)
+		pObj := objOf(info, f.copyRoot(pArg)) // up to plain copies of the variable the pool was read into
 		var read *Site
 		if pObj != nil {
 			for _, d := range f.Defs(pObj) {
@@ -150,7 +150,7 @@ func c07b(c *Ctx) {
 		for _, st := range pub {
 			st := st
 			base, ok := fieldSel(info, st.Rhs, pkgCtlog, "pool", "byHash")
-			if !ok || objOf(info, base) != pObj {
+			if !ok || objOf(info, f.copyRoot(base)) != pObj {
 				c.Bad(f.Name+" rotation", st.Pos(), "Log.inSequencing is not the byHash map of the pool being sequenced")
 				bad = true
 			}
